@@ -5,7 +5,7 @@ per shot, per-shot RNG seeds s_0..s_{N-1}); N fresh processes each load, analyse
 Oracle: per shot, echo lines, tracked table, status/diagnostic and the emitted QASM are identical; additionally analysing
 the program twice before running changes nothing.
 Programs are chosen to DEPEND on per-run state: static counters (object ids come from one), lazily instantiated generics with
-static fields, `final int`-sized arrays, objects owning qubits (free list), measured flags, tracked counts, allocation order.
+static fields, static (final) fields whose initialisers measure a qubit or read a counter, `final int`-sized arrays, objects owning qubits (free list), measured flags, tracked counts, allocation order.
 """
 import sys
 
@@ -26,7 +26,18 @@ class LabeledBox<T> extends Box<T> {
     public constructor(string l, T v) -> LabeledBox<T> { super(v); this.label = l; return this; }
 }
 static class Tally { public static int hits = 0; public static function bump() -> int { hits = hits + 1; return hits; } }
+static class Dice {
+    public static int rolls = 0;
+    public static function flip() -> bit { qubit dq; h(dq); rolls = rolls + 1; return measure dq; }
+    public static function next() -> int { rolls = rolls + 1; return rolls; }
+}
+static class Config {
+    public static final bit coin = Dice.flip();
+    public static final int serial = Dice.next();
+    public static int plain = Dice.next();
+}
 function stateful(int k) -> int {
+    echo(Config.coin); echo(Config.serial); echo(Config.plain); echo(Dice.rolls);
     final int n = 3;
     int[n] arr;
     arr[k % 3] = k;
